@@ -20,7 +20,7 @@ Open Scope Q_scope.
 Theorem C19_2d_oriented_cells_closed :
   forall g c, oriented1 g = true -> (c < g_nc g)%nat ->
     signs_ok (cell_sfaces g c) /\ closed (cell_sfaces g c).
-Proof. intros g c H Hc. split; [apply oriented_signs; exact H|apply oriented_closed; assumption]. Qed.
+Proof. exact oriented_cells_closed. Qed.
 Print Assumptions C19_2d_oriented_cells_closed.
 
 (* What the oriented branch returns: it is only taken when the check holds, sigma = +-1, every
@@ -133,10 +133,7 @@ Theorem C19_1d_output :
     forall f e c' s, first_entry h f = Some (e, c', s) ->
       normal1 h f = if flip_rule (xface h f - cc1 h c') (tangent1 h) s
                     then - tangent1 h else tangent1 h.
-Proof.
-  intros h c f1 s1 f2 s2 H. split; [eapply cell1_form; exact H|].
-  intros f e c' s Hf. eapply normal1_form. exact Hf.
-Qed.
+Proof. exact output_1d. Qed.
 Print Assumptions C19_1d_output.
 
 (* Non-vacuity: the unit square with node order as in pp.CartGrid([1, 1]) (faces: left, right
